@@ -1768,15 +1768,39 @@ func (h *vC09H) scenario(kind string) {
 		h.run(h.honest(), vC09Faults{})
 
 	case "dualflags":
-		// one public key configured and published under two flags values (257 and 1): two entries
-		// of one material; the 257 form is revoked
+		// one public key tracked under two flags values (two key tags, two anchor-table entries of one
+		// key material): configured and published, configured only (goes Missing, still trusted) or
+		// only published (completes the add hold-down first).  One of the two forms is then revoked
+		// (self-signed, co-signed): the accepting run must withhold EVERY entry of that material
+		// (repaired by 3c40407; before, the sibling stayed in rootKeys for that one run).
 		a, b := h.fresh(&next), h.fresh(&next)
-		a1 := vC09Sym{a.mat, 1}
+		a1 := vC09Sym{a.mat, []uint16{1, 259, 513}[r.Intn(3)]}
+		if h.idx < len(vC09Kinds) {
+			a1.flags = 1 // the walk-through instance is the recorded finding
+		}
 		cfg := []vC09Sym{a, a1, b}
 		h.pub = []vC09Sym{a, a1, b}
+		where := 0
+		if h.idx >= len(vC09Kinds) {
+			where = r.Intn(3)
+		}
+		switch where {
+		case 1:
+			h.pub = []vC09Sym{a, b}
+		case 2:
+			cfg = []vC09Sym{a, b}
+		}
 		h.start(cfg)
 		h.run(h.honest(), vC09Faults{})
-		h.revoke(a)
+		if where == 2 {
+			h.advance(30*vC09Day + []int64{1, 60, vC09Day}[r.Intn(3)])
+			h.run(h.honest(), vC09Faults{})
+		}
+		victim := a
+		if h.idx >= len(vC09Kinds) && r.Intn(3) == 0 {
+			victim = a1 // revoking the sibling form must withhold the 257 entry just the same
+		}
+		h.revoke(victim)
 		h.run(h.honest(), h.pickFaults())
 		h.run(h.honest(), vC09Faults{})
 		h.restart(cfg)
@@ -2003,7 +2027,8 @@ var vC09Kinds = []struct {
 	{"sreadloss", 4, "", "hist"},
 	{"cfgrev", 3, "", "hist"},
 	{"twinrev", 8, "", "hist"},
-	{"dualflags", 2, "one-public-key-under-two-flags-values-survives-its-revocation-for-one-run", "split"},
+	// the defect repaired by 3c40407: strict since the fix landed
+	{"dualflags", 5, "", "hist"},
 }
 
 func TestVerifC09AutoTA(t *testing.T) {
